@@ -8,6 +8,7 @@ number in the file — the plain path of `dgrepLines` (`Model/Grep.lean`).
 import DtailModel.Generated.Code
 import DtailModel.Lemmas.GoRT
 import DtailModel.Model.Grep
+set_option autoImplicit false
 namespace Dtail.GenPlain
 open Dtail Dtail.Go Dtail.Gen.Fs
 
